@@ -63,7 +63,6 @@ var _ *identityprovider.Identity
 //@ func verifLemmaTraversalComplete
 //@   lemma
 //@   induction x by rankMax() - rank(x)
-//@   requires validEntries(E) && validEntries(res) && isOM(H)
 //@   requires visitsRoots(H, res) && followsLinks(res, E) && linksAgree(res, E) && connectedUp(E, H)
 //@   requires has(omv(E), x)
 //@   ensures [every-entry-hanging-from-the-roots-is-visited] has(omv(res), x)
@@ -80,15 +79,9 @@ func verifLemmaTraversalComplete(E iface.IPFSLogOrderedEntries, H iface.IPFSLogO
 //@ @lin ensures [traverse-visits-its-roots] rootEntries != nil && amount < 0 && (forall k string :: has(omv(rootEntries), k) || has(ent(l), k) ==> k != endHash) ==> visitsRoots(rootEntries, result0)
 //@ @lin ensures [traverse-follows-every-link-into-the-log] rootEntries != nil && amount < 0 && (forall k string :: has(omv(rootEntries), k) || has(ent(l), k) ==> k != endHash) ==> followsLinks(result0, l.Entries)
 //@ @lin ensures [traverse-returns-root-or-log-objects] rootEntries != nil ==> forall k string :: has(omv(result0), k) ==> (has(omv(rootEntries), k) && omv(result0)[k] == omv(rootEntries)[k]) || (has(ent(l), k) && omv(result0)[k] == ent(l)[k])
-//@ @lin assert "count++" [root-index-stays-valid-after-a-visit] isOM(rootEntries)
-//@ @lin assert "count++" [visited-index-stays-valid-after-a-visit] validEntries(result)
-//@ @lin assert "count++" [entry-index-stays-a-map-after-a-visit] isOM(l.Entries)
-//@ @lin assert "count++" [entry-index-stays-keyed-by-hash-after-a-visit] forall k string :: has(ent(l), k) ==> validEntry(ent(l)[k]) && ehash(ent(l)[k]) == k
 //@ @lin assert "stack = append([]iface.IPFSLogEntry{next}, stack...)" [pushed-predecessor-is-named-by-the-current-entry] ordH(l.SortFn, ehash(e), ehash(next)) > 0
 //@ @lin assert "stack = append([]iface.IPFSLogEntry{next}, stack...)" [pushed-predecessor-lies-below-every-visited-entry] forall k string :: has(omv(result), k) ==> ordH(l.SortFn, k, ehash(next)) >= 0
-//@ @lin ensures [traverse-leaves-the-indexes-valid] rootEntries != nil ==> validEntries(l.Entries) && isOM(rootEntries)
 //@ @lin ensures [visited-objects-agree-with-the-log-on-links] rootEntries != nil ==> linksAgree(result0, l.Entries)
-//@ @lin ensures [visited-entries-form-a-valid-index] rootEntries != nil ==> validEntries(result0)
 //@ @lin uselemma verifLemmaTraversalComplete(l.Entries, rootEntries, result0, _)
 //@ @lin ensures [traverse-is-complete] rootEntries != nil && amount < 0 && (forall k string :: has(omv(rootEntries), k) || has(ent(l), k) ==> k != endHash) && linksAgree(rootEntries, l.Entries) && connectedUp(l.Entries, rootEntries) ==> forall x string :: has(ent(l), x) ==> has(omv(result0), x)
 //@   requires l != nil && validEntries(l.Entries) && l.SortFn != nil
@@ -422,7 +415,7 @@ func verifLemmaTraversalComplete(E iface.IPFSLogOrderedEntries, H iface.IPFSLogO
 //@ func verifLemmaDifferenceComplete
 //@   lemma
 //@   induction x by rankMax() - rank(x)
-//@   requires validEntries(entriesA) && validEntries(res) && logB != nil && validEntries(logB.Entries)
+//@   requires logB != nil
 //@   requires subMap(res, entriesA) && diffSeeds(entriesA, headsA, logB, res) && diffDown(entriesA, logB, res)
 //@   requires isOM(H) && headsCover(headsA, H) && connectedUp(entriesA, H) && closedLog(logB) && sameLinks(entriesA, logB) && oneID(entriesA, logB.ID)
 //@   requires has(omv(entriesA), x) && !has(ent(logB), x)
@@ -449,7 +442,6 @@ func verifLemmaSourceConnected(o *IPFSLog, A iface.IPFSLogOrderedEntries) {
 //@   ensures logB == nil ==> len(om(result).keys) == 0
 //@ @wf ensures [difference-collects-new-source-heads] logB != nil ==> diffSeeds(entriesA, headsA, logB, result)
 //@ @wf ensures [difference-follows-every-available-predecessor] logB != nil ==> diffDown(entriesA, logB, result)
-//@ @wf ensures [difference-leaves-the-indexes-valid] logB != nil ==> validEntries(entriesA) && validEntries(result) && validEntries(logB.Entries)
 //@ @wf ensures [collected-entries-are-source-entries] logB != nil ==> subMap(result, entriesA)
 //@ @wf uselemma verifLemmaDifferenceComplete(entriesA, headsA, logB, result, _, _)
 //@ @wf ensures [difference-is-complete] forall H iface.IPFSLogOrderedEntries :: logB != nil && isOM(H) && headsCover(headsA, H) && connectedUp(entriesA, H) && closedLog(logB) && sameLinks(entriesA, logB) && oneID(entriesA, logB.ID) ==> forall x string :: has(omv(entriesA), x) && !has(ent(logB), x) ==> has(omv(result), x)
